@@ -159,6 +159,10 @@ def name_cases(tier):
                 if side == "server" and tier == "quick" and len(n) == 3 and n[0] in VALID_CHARS and n[1] in VALID_CHARS and valid_name(n):
                     continue
                 yield (n, args, side)
+            if not valid_name(n) and n:
+                # the invalid name is itself a key of the configuration's local class table: it is still rejected, nothing is built
+                yield (n, args, "jsonclass.load/registered")
+                yield (n, args, "server/registered")
             if len(n) != 3 or not valid_name(n):
                 # the descriptor 40 levels deep, and the marker key spelled with an escape sequence
                 yield (n, args, "jsonclass.load/deep")
@@ -185,10 +189,20 @@ def check_name(case):
                 jsonclass.load({"__jsonclass__": [cleaned, args]})
             except Exception:
                 pass
+    registered = variant == "registered"
+    if registered:
+        built = []
+
+        class Registered(object):
+            def __init__(self, *a, **k):
+                built.append((a, k))
     if side == "jsonclass.load":
         with recording() as rec:
             try:
-                jsonclass.load(desc)
+                if registered:
+                    jsonclass.load(desc, {name: Registered})
+                else:
+                    jsonclass.load(desc)
                 res = "ret"
             except jsonclass.TranslationError:
                 res = "TranslationError"
@@ -206,6 +220,9 @@ def check_name(case):
                 res = type(ex).__name__
     else:
         w = _world(True)
+        if registered:
+            w = ref.World(version=2.0, use_jsonclass=True)
+            w.config.classes[name] = Registered
         body = esc(json.dumps({"jsonrpc": "2.0", "id": 1, "method": "f", "params": [desc]}))
         with recording() as rec:
             try:
@@ -223,6 +240,8 @@ def check_name(case):
                 out.bad("C08/server/invalid-class-name-not-answered-32700", "class name %r: reply %r" % (name, reply))
             if w.log:
                 out.bad("C08/server/method-invoked-for-rejected-payload", "class name %r: invoked %r" % (name, w.log))
+    if registered and built:
+        out.bad("C08/%s/object-built-for-an-invalid-class-name" % side, "class name %r is a key of the local class table: an object was built (%r)" % (name, built))
     if not ok_name:
         if rec.events:
             out.bad("C08/%s/import-or-construction-before-name-validation" % side, "class name %r: events %r" % (name, rec.events))
